@@ -599,7 +599,7 @@ fn run_channel_case(policy: char, cap: usize, n: usize, with_metrics: bool) -> O
         let item = 100 + i as Ac;
         let started = Instant::now();
         let r = tx.send(ActionOp::Action(item));
-        if policy != 'B' && started.elapsed() > Duration::from_millis(500) {
+        if policy != 'B' && started.elapsed() > Duration::from_millis(5000) {
             return Some(("O-C06-send-never-blocks".into(), "send returns at once".into(), "blocked".into()));
         }
         let exp_ok = match policy {
@@ -908,7 +908,7 @@ fn run_block_case(entry: char, cap: usize) -> Option<(String, String, String)> {
     for a in 1..=cap as Ac {
         let t0 = Instant::now();
         let ok = send(&store, a);
-        if !ok || t0.elapsed() > Duration::from_millis(1000) {
+        if !ok || t0.elapsed() > Duration::from_millis(5000) {
             return Some(("O-C05-send-block-lossless".into(), format!("dispatch #{} into a queue with room returns Ok at once", a), format!("ok={} after {:?}", ok, t0.elapsed())));
         }
     }
